@@ -81,3 +81,11 @@ func Mix(vals ...uint64) uint64 {
 	}
 	return h
 }
+
+// Rest returns the replay values that have not been consumed yet.
+func (c *Choices) Rest() []uint32 {
+	if !c.Replaying || c.pos >= len(c.replay) {
+		return nil
+	}
+	return c.replay[c.pos:]
+}
